@@ -211,8 +211,8 @@ func returnedClosure(fn *ssa.Function) *ssa.Function {
 		for _, o := range an.Origins(ret.Results[0], an.StepValue) {
 			if mc, ok := o.(*ssa.MakeClosure); ok {
 				found = mc.Fn.(*ssa.Function)
-			} else if f, ok := o.(*ssa.Function); ok && f.Parent() == fn {
-				found = f
+			} else if f, ok := o.(*ssa.Function); ok {
+				found = f // a literal without captures, or a named function returned as the renderer
 			}
 		}
 	})
